@@ -54,3 +54,13 @@ def dec(S, sub, big, T, data, norm=1, ieee=0, fmode=1, extra=None):
 
 def all_shorts(step=1, lo=-32768, hi=32767):
     return list(range(lo, hi + 1, step))
+
+
+def adpcm(S, layout, fmt, ch, rate, spb, nblocks, seed, kind, ba):
+    """valid file of whole blocks, data section overwritten (random / extreme / hostile header bytes), dumped, decoded by the library"""
+    S.scn(kind="adpcm", layout=layout, ch=ch, rate=rate, fmt="0x%x" % fmt, pat=kind)
+    N = spb * nblocks
+    S.add("file 1 new", "open 0 vio w 1 %d %d %d" % (fmt, ch, rate), "write 0 s f %d gen noise %d 0" % (N, seed), "close 0",
+          "open 0 vio r 1 0 0 0", "close 0",
+          "file 1 datapatch %d %s %d" % (seed, kind, ba), "file 1 datadump",
+          "open 1 vio r 1 0 0 0", "read 1 s f %d" % (N + 5), "close 1")
